@@ -49,13 +49,17 @@ def main():
         _geqdsk.write(data, fh)
     opts = {"nx_core": 2, "nx_sol": 2, "ny_inner_divertor": 3, "ny_sol": 4, "ny_outer_divertor": 3, "y_boundary_guards": 1, "psinorm_core": 0.9, "psinorm_sol": 1.1,
             "psinorm_pf": 0.95, "finecontour_Nfine": 50, "target_all_poloidal_spacing_length": 0.3, "xpoint_poloidal_spacing_length": 0.05,
-            "psi_spacing_separatrix_multiplier": 0.5, "reverse_Bt": True, "grid_file": "first.grd.nc"}
+            "psi_spacing_separatrix_multiplier": 0.5, "reverse_Bt": True, "grid_file": "first.grd.nc",
+            # an option explicitly set to None whose default is NOT None (it would fall back to target_all_poloidal_spacing_length): the embedded
+            # option set has to carry the None (seeded change C14_yaml_drops_none)
+            "target_inner_lower_poloidal_spacing_length": None}
     with open(os.path.join(w1, "in.yaml"), "w") as fh:
         yaml.safe_dump(opts, fh)
     st = {"mode": mode}
     script = "from hypnotoad.scripts.hypnotoad_geqdsk import main; main()"
     if mode == "regrid":
         opts.update({"orthogonal": False, "finecontour_Nfine": 100, "ny_inner_divertor": 2, "ny_outer_divertor": 3, "ny_sol": 4})
+        opts.pop("target_inner_lower_poloidal_spacing_length")      # (with a target spacing of None regridding is history dependent: known finding of C15)
         regrid = {"nonorthogonal_xpoint_poloidal_spacing_length": 0.02, "nonorthogonal_target_all_poloidal_spacing_length": 0.4}
         api = ("import sys, yaml, warnings; warnings.simplefilter('ignore')\n"
                "from hypnotoad.cases import tokamak\nfrom hypnotoad.core.mesh import BoutMesh\n"
@@ -69,7 +73,7 @@ def main():
         rc, tail = run([sys.executable, "-B", "-c", script, gf, "in.yaml"], w1)
     st["first_run"] = 1 if rc == 0 and os.path.exists(os.path.join(w1, "first.grd.nc")) else 0
     st["first_tail"] = tail if not st["first_run"] else ""
-    st.update(recreate=0, geqdsk_bytes_equal=0, yaml_safe_loads=0, second_run=0, arrays_identical=0, max_abs_diff_q=10 ** 9, second_tail="")
+    st.update(recreate=0, geqdsk_bytes_equal=0, yaml_safe_loads=0, yaml_complete=0, yaml_missing=[], second_run=0, arrays_identical=0, max_abs_diff_q=10 ** 9, second_tail="")
     if st["first_run"]:
         rc, tail = run([sys.executable, "-B", "-c", "from hypnotoad.scripts.hypnotoad_recreate_inputs import main; main()", os.path.join(w1, "first.grd.nc"),
                         "-g", "re.geqdsk", "-y", "re.yaml"], w2)
@@ -80,6 +84,14 @@ def main():
             try:
                 y = yaml.safe_load(open(os.path.join(w2, "re.yaml")))
                 st["yaml_safe_loads"] = 1 if isinstance(y, dict) else 0
+                # "the complete evaluated option set": every option of the three option tables that apply to a tokamak grid is there
+                from hypnotoad.cases import tokamak
+                from hypnotoad.core.mesh import BoutMesh
+                allopts = set(tokamak.TokamakEquilibrium.user_options_factory.defaults) | set(tokamak.TokamakEquilibrium.nonorthogonal_options_factory.defaults) \
+                    | set(BoutMesh.user_options_factory.defaults)
+                missing = sorted(allopts - set(y)) if isinstance(y, dict) else sorted(allopts)
+                st["yaml_complete"] = 0 if missing else 1
+                st["yaml_missing"] = missing[:12]
             except Exception as e:  # noqa
                 st["second_tail"] = "yaml.safe_load: %s" % str(e)[:300]
             rc, tail = run([sys.executable, "-B", "-c", script, "re.geqdsk", "re.yaml"], w2)
